@@ -33,6 +33,10 @@ def check(run):
     _, races = run_race(run, "atomicvalue-stress", [dict(threads=6, ops=300, rounds=5 if q else 40, seed=run.seed, log=False)])
     for rp in races:
         race_rejection(run, "atomicvalue-stress", rp)
+    # large free-running workloads with linear-time necessary conditions (swap chains, CAS increments)
+    cnt = run_driver(run, "atomicvalue-count", [dict(kind="swapchain", threads=8, ops=250, rounds=20 if q else 300),
+                                                dict(kind="casinc", threads=8, ops=2000, rounds=20 if q else 300)])
+    hist = hist + [[dict(ev="reset", ty="int"), e] for e in cnt]
     validate(run, "atomics", "RegisterAbsTrace", dict(NT=6), seq + hist, [], plans=None, label="register")
     # ---- Pool: free-running goroutines with unique tokens ----
     pl = [dict(threads=4, ops=30, rounds=20 if q else 300, seed=run.seed, hasnew=True, log=True),
